@@ -30,10 +30,17 @@ fn ns(cfg: &Cfg) -> Vec<usize> {
 /// state that grows only on particular inputs (ties, flat windows, zeros of an inner view, a
 /// value sitting on the mean) must be reached too, not just generic noise.
 #[inline]
-fn input(state: &mut u64, mode: u64, t: usize) -> f64 {
+fn input(state: &mut u64, walk: &mut f64, mode: u64, t: usize) -> f64 {
     *state = state.wrapping_mul(6364136223846793005).wrapping_add(1442695040888963407);
     let r = (*state >> 40) & 0xFFFF;
     match mode {
+        7 => {
+            // random walk at a high level: records (all-time highs after a dip, deepest drawdowns,
+            // largest moves) keep occurring, ever more rarely
+            *walk += (r as f64 - 32767.5) / 32768.0;
+            1.0e6 + *walk
+        }
+        8 => 1.0 + t as f64 / 64.0 + (r % 1024) as f64 / 64.0, // noisy up-trend: new highs after dips at a steady rate
         0 => 1.0 + r as f64 / 256.0,           // noise
         1 => 42.5,                              // constant: every window flat
         2 => 1.0 + (r % 3) as f64,              // three levels: ties everywhere
@@ -52,7 +59,8 @@ fn input(state: &mut u64, mode: u64, t: usize) -> f64 {
 }
 
 fn measure(spec: &Spec, l: usize, seed: u64, out: &mut TrialOut, cell: &str) {
-    let mode = seed % 7;
+    let mode = seed % 9;
+    let mut walk = 0.0f64;
     out.key(mix(hash_str(&spec.show()), mix(l as u64, mode)));
     out.count(&format!("input_mode_{}", mode), 1);
     let mut st = seed | 1;
@@ -68,7 +76,7 @@ fn measure(spec: &Spec, l: usize, seed: u64, out: &mut TrialOut, cell: &str) {
     let mut calls = [0u64; 3];
     for (slot, target) in [l, 4 * l, 16 * l].iter().enumerate() {
         while fed < *target {
-            v.update(input(&mut st, mode, fed));
+            v.update(input(&mut st, &mut walk, mode, fed));
             fed += 1;
             if fed % 64 == 0 {
                 let _ = v.last();
@@ -92,7 +100,7 @@ fn measure(spec: &Spec, l: usize, seed: u64, out: &mut TrialOut, cell: &str) {
             "live-bytes-grow-with-length",
             "any",
             format!(
-                "{} at f64: live heap bytes owned by the view: {} after L={} updates, {} after 4L, {} after 16L (last() = {:?}); input mode {} (0 noise, 1 constant, 2 three levels, 3 flat stretches, 4 saw-tooth, 5 rising ramp, 6 falling ramp), seed {}",
+                "{} at f64: live heap bytes owned by the view: {} after L={} updates, {} after 4L, {} after 16L (last() = {:?}); input mode {} (0 noise, 1 constant, 2 three levels, 3 flat stretches, 4 saw-tooth, 5 rising ramp, 6 falling ramp, 7 random walk at 1e6, 8 noisy up-trend), seed {}",
                 spec.show(),
                 bytes[0],
                 l,
@@ -210,7 +218,7 @@ impl Monitor for C18 {
         names
     }
     fn rule(&self) -> String {
-        "trial = one view (every kind x N grid), PFE/EFT with each moving average, or a random 2-3 level chain / combinator (a third of them with a component that never becomes ready: as inner view, as moving average, as one child of a combinator), driven by one of seven input modes (noise, constant, three levels, long flat stretches, saw-tooth, ever-rising ramp, ever-falling ramp); the harness' counting global allocator meters the bytes the instance owns after L, 4L and 16L updates (L >= 4096 and >= 8 windows; long runs to 16L = 4e6 in thorough); violation iff bytes(4L) > bytes(L) or bytes(16L) > bytes(L) (exact integer comparison). distinct = distinct (tree, L); non-trivial = both comparisons made".into()
+        "trial = one view (every kind x N grid), PFE/EFT with each moving average, or a random 2-3 level chain / combinator (a third of them with a component that never becomes ready: as inner view, as moving average, as one child of a combinator), driven by one of nine input modes (noise, constant, three levels, long flat stretches, saw-tooth, ever-rising ramp, ever-falling ramp, random walk at a high level, noisy up-trend); the harness' counting global allocator meters the bytes the instance owns after L, 4L and 16L updates (L >= 4096 and >= 8 windows; long runs to 16L = 4e6 in thorough); violation iff bytes(4L) > bytes(L) or bytes(16L) > bytes(L) (exact integer comparison). distinct = distinct (tree, L); non-trivial = both comparisons made".into()
     }
     fn assumptions(&self) -> Vec<String> {
         vec![
